@@ -63,6 +63,7 @@ def unwrap(n):
 def return_type_of(fq):
     """return type of a function type string `<ret>(<params>)<quals>`; the return type itself may contain parentheses
     (`(anonymous namespace)::t &(const v &)`), so the parameter list is found from the right"""
+    fq = re.sub(r'\s*noexcept(\s*\([^()]*\))?\s*$', '', fq)      # `T &(const T &) noexcept(false)` (implicitly-defined operations)
     if '->' in fq.split(')')[-1]:
         return fq.split('(')[0].strip()
     j = fq.rfind(')')
@@ -1053,6 +1054,9 @@ class Printer:
         seen = {}
         for k, q in enumerate(params):
             nm = q.get('name', f'nv_unnamed{k}')
+            if not q.get('name'):
+                # unnamed parameter that the body still refers to (implicitly-defined / defaulted copy and move operations)
+                self.renamed[q.get('id')] = nm
             if nm in names and names.count(nm) > 1:
                 # an expanded parameter pack (`tindices... indices`) repeats one name: the j-th element prints as name_j
                 j = seen.get(nm, 0)
@@ -1074,7 +1078,9 @@ class Printer:
                         continue
                     raise Unsupported('constructor initialiser without a member')
                 e = c['inner'][0]
+                dflt_type = None
                 if e.get('kind') == 'CXXDefaultInitExpr':
+                    dflt_type = e.get('type')
                     e = e['inner'][0] if e.get('inner') else None
                     if e is None and getattr(self, 'field_init', None):
                         # clang does not repeat the default member initialiser (`bool m_stop{false};`) under the
@@ -1086,7 +1092,11 @@ class Printer:
                 # opt-in (Fn(..., ref_member_pointers=True)): a reference member (`const T& m;`) modelled as a pointer field is
                 # bound, not copied: the initialiser is the address of the object (default: the member is a copy of the object)
                 is_ref_field = getattr(self, 'ref_member_pointers', False) and any_.get('type', {}).get('qualType', '').rstrip().endswith('&')
-                ie = self.addr(e) if is_ref_field else self.expr(e)
+                if dflt_type is not None and e.get('kind') == 'InitListExpr' and not e.get('inner') and qual(e.get('type')) in ('void', '<dependent type>'):
+                    # `T m{};` read from the class TEMPLATE's field declaration (type-dependent there): value-initialisation
+                    ie = self.default_value(self.ctype(dflt_type))
+                else:
+                    ie = self.addr(e) if is_ref_field else self.expr(e)
                 pre += ''.join(f'  {h}\n' for h in self.hoisted)
                 self.hoisted = None
                 pre += f'  self->{any_["name"]} = {ie};\n' + self.after('  ')
